@@ -311,10 +311,14 @@ pub fn cfg_strategy() -> impl Strategy<Value = Cfg> {
         ]
     };
     let money = prop_oneof![6 => Just(None), 2 => (any::<bool>(), any::<bool>()).prop_map(Some)];
-    let arbitrary = (seps, tz, numcfg(), numcfg(), money).prop_map(|((dec, thou), tz, num, pct, money)| Cfg { dec, thou, tz, num, pct, money });
+    let arbitrary = (seps, tz, numcfg(), numcfg(), money, 0u8..2).prop_map(|((dec, thou), tz, num, pct, money, order)| Cfg { dec, thou, tz, num, pct, money, order });
     prop_oneof![
         50 => Just(Cfg::default()),
-        46 => prop::sample::select(cfg_panel()),
+        40 => prop::sample::select(cfg_panel()),
+        6 => prop::sample::select(cfg_panel()).prop_map(|mut c| {
+            c.order = 1;
+            c
+        }),
         4 => arbitrary,
     ]
 }
